@@ -4,6 +4,7 @@ import QuiverModel.Core.RefSem.Compile0
 qm_c02 — driver for M-RefSem. Requests:
   (eval <program> <fuel>)  →  ok <canonical value> | err <Class> | fuel-out | unspecified <why> | unsupported
   (compile0 <chain>)       →  ok <instruction>*          (fragment compiler model, Core/RefSem/Compile0)
+  (compile0seq <chain>+)   →  ok <instruction>*          (sequence `c₁, c₂, …` of the fragment: + dup, not, jumpif<off>)
       chain ::= (ch term*)    term ::= (i z cidx) | (~) | (t id chain*)
       instructions print as pop, const<i>, pick<k>, tuple<id>, rot<n>
 The evaluation is `QM.RefSem.evalProgram`, the compilation `QM.RefSem.C0.compileCh` — the definitions
@@ -43,12 +44,23 @@ mutual
       | _, _ => none
 end
 
+partial def parseSq : List Sx → Option Sq0
+  | [c] => (parseCh c).map Sq0.last
+  | c :: r =>
+    match parseCh c, parseSq r with
+    | some c, some r => some (.cons c r)
+    | _, _ => none
+  | [] => none
+
 def showInstr : QM.VM.Instr → String
   | .pop => "pop"
   | .constant i => s!"const{i}"
   | .pick k => s!"pick{k}"
   | .tuple id => s!"tuple{id}"
   | .rotate n => s!"rot{n}"
+  | .duplicate => "dup"
+  | .not => "not"
+  | .jumpIf off => s!"jumpif{off}"
   | _ => "?"
 end C0Glue
 
@@ -64,6 +76,10 @@ def c02Step (_ : Unit) (req : List Sx) : Unit × String :=
   | [.list [.atom "compile0", ch]] =>
     match C0Glue.parseCh ch with
     | some c => ((), "ok " ++ " ".intercalate ((QM.RefSem.C0.compileCh c).map C0Glue.showInstr))
+    | none => ((), "bad-request")
+  | [.list (.atom "compile0seq" :: chs)] =>
+    match C0Glue.parseSq chs with
+    | some sq => ((), "ok " ++ " ".intercalate ((QM.RefSem.C0.compileSq sq).map C0Glue.showInstr))
     | none => ((), "bad-request")
   | _ => ((), "bad-request")
 
